@@ -226,6 +226,22 @@ CLAIMED['C16'] = dict(
           'calculate_mapping vs the binary64 loop-level model on tie-free masks and on the restoration domain.'),
     design='6/C16', technique='Coq proof (Z, order-generic, Reals) + in-Coq differential correspondence + predicate exploration for the DHTV clause')
 
+CLAIMED['C09'] = dict(
+    text=("Theorems over the real-number instance of the Gallina model of every M-step's domain-deciding code, for all sizes and "
+          'inputs incl. degenerate ones. Mixture weights: mean / L1 / integration / uniform updates are non-negative and sum to one '
+          'within K*affiliation_eps; the zero-mass branch is stated; constant along tied axes is structural; shape function. cACG: '
+          'eigenvalue post-processing in [floor,1] for any spectrum, maximum 1 iff max ev >= tiny, degenerate branch explicit with a '
+          '_refuted theorem; trace/False flooring > 0; unit trace up to flooring; U diag(lambda) U^H Hermitian with v^H C v >= '
+          'floor |v|^2 under the eigh contract. vMF: unit mean iff resultant >= tiny, kappa in [min,max] for any ratio value. '
+          'Watson: under the eigh and spline contracts. Gaussian: covariance symmetric, PSD with explicit quadratic form; PD is a '
+          'spanning condition (partial). Bingham: top exactly 0, ordered, <= 0 with inf bound; with a finite bound in '
+          '[-max,(D-1)eps], plus a _refuted theorem. fit_invariant instances carry every iteration count (concrete cACGMM and vMFMM '
+          'loops). Tie to /repo on every run: fitted fields of 5 single and 7 mixture trainers x all options x 1..4 iterations on '
+          "regular and degenerate streams are compared in Coq (PrimFloat) with the model's post-processing of the recorded M-step "
+          'inputs and oracle outputs, with contract residuals evaluated; independent NumPy domain predicates run on every case. '
+          'NaN/Inf freedom in binary64 is explored, not proved; 3 known findings (listed in known_findings.json).'),
+    design='6/C09', technique='Coq proof over Reals/Coquelicot + in-Coq differential correspondence + predicate search')
+
 NOT_YET = {}
 
 
